@@ -2,8 +2,8 @@
 (***************************************************************************)
 (* Temporal ISO-calendar date arithmetic: AddISODate, DifferenceISODate.    *)
 (* Operators in closed form plus a literal transcription of the proposal's  *)
-(* candidate loops (checked equal on the model), and the session state      *)
-(* machine used by generators and trace specs.                              *)
+(* candidate loops (checked equal on the model). Pure operators; the        *)
+(* session state machine and the laws are in DateArithMachine.              *)
 (***************************************************************************)
 EXTENDS Gregorian, TemporalBase
 
@@ -96,48 +96,4 @@ Balanced(r, largest) ==   \* top-heavy: no lower field could have filled the nex
   /\ (largest = "day" => r.y = 0 /\ r.mo = 0 /\ r.w = 0)
   /\ (largest = "month" => r.y = 0)
 SignOK(r, sign) == \A x \in {r.y, r.mo, r.w, r.d} : x = 0 \/ SgnI(x) = sign
-
-(* ---------------- session state machine ---------------- *)
-CONSTANTS Window, DurSet, LargestSet,    \* dates explored, durations (records y,mo,w,d) tried, largest units tried
-          OneStep                          \* TRUE: explore every single transition from every window date once (model checking);
-                                           \* FALSE: unbounded sessions (trace validation)
-VARIABLES cur, last
-vars == <<cur, last>>
-
-None == [op |-> "none"]
-Init == cur \in Window /\ last = None
-
-Until(b, u) == /\ last' = [op |-> "until", a |-> cur, b |-> b, u |-> u, r |-> Diff(cur, b, u)]
-               /\ cur' = b
-Since(b, u) == /\ last' = [op |-> "since", a |-> cur, b |-> b, u |-> u, r |-> Diff(cur, b, u)]
-               /\ cur' = b
-AddAct(D, ovf) == LET o == AddDateI(cur, D.y, D.mo, D.w, D.d, ovf)
-                  IN /\ last' = [op |-> "add", a |-> cur, dur |-> D, ovf |-> ovf, out |-> o]
-                     /\ cur' = IF o.kind = "ok" /\ o.val \in Window THEN o.val ELSE cur
-SubAct(D, ovf) == LET o == AddDateI(cur, -D.y, -D.mo, -D.w, -D.d, ovf)
-                  IN /\ last' = [op |-> "subtract", a |-> cur, dur |-> D, ovf |-> ovf, out |-> o]
-                     /\ cur' = IF o.kind = "ok" /\ o.val \in Window THEN o.val ELSE cur
-
-Next == /\ (OneStep => last = None)
-        /\ \/ \E b \in Window, u \in LargestSet : Until(b, u) \/ Since(b, u)
-           \/ \E D \in DurSet, ovf \in {"constrain", "reject"} : AddAct(D, ovf) \/ SubAct(D, ovf)
-Spec == Init /\ [][Next]_vars
-
-(* ---------------- properties (state invariants over the last transition) ---------------- *)
-IsDiff == last.op \in {"until", "since"}
-InverseLaw == IsDiff =>
-  LET r == last.r IN AddDateI(last.a, r.y, r.mo, r.w, r.d, "constrain") = Ok(last.b)
-ClosedEqualsLiteral == IsDiff => last.r = DiffLiteral(last.a, last.b, last.u)
-DiffShape == IsDiff => /\ Balanced(last.r, last.u)
-                       /\ SignOK(last.r, -CmpDate(last.a, last.b))
-DayIsDistance == (IsDiff /\ last.u = "day") => last.r.d = DFC(last.b) - DFC(last.a)
-\* a.since(b) = -(a.until(b)) by definition here; the cross-law is: b.until(a) relates to a.until(b) only through add
-AddWellFormed == (last.op \in {"add", "subtract"} /\ last.out.kind = "ok") =>
-                    ValidDate(last.out.val) /\ InDateRange(DFC(last.out.val))
-SubIsAddNeg == last.op = "subtract" =>
-  last.out = AddDateI(last.a, -last.dur.y, -last.dur.mo, -last.dur.w, -last.dur.d, last.ovf)
-RejectRule == (last.op = "add" /\ last.ovf = "reject") =>
-  LET ym == BalYM(last.a.y + last.dur.y, last.a.m + last.dur.mo)
-  IN (last.a.d > DIM(ym.y, ym.m)) => last.out = ErrRange
-
 =============================================================================
